@@ -47,30 +47,6 @@ Definition recorded_okb (k : kind) (st : store) (rec : Z) (acked : list Z) : boo
       (l <=? rec) && forallb (fun s => negb (matching k st s)) (zrange (l + 1) (Z.to_nat (rec - l)))
   end.
 
-(** * Guard of the partial theorems (receipt-type pushes)
-
-    [scan max l total] walks a suffix of the store the way getTxReceipts does
-    and answers [false] when a deliverable entry meets [total + size = max]
-    (it would be counted without being appended).  [no_exact_fill] asks this
-    for every start position. *)
-Fixpoint scan (max : Z) (l : store) (total : Z) : bool :=
-  match l with
-  | [] => true
-  | (size, has) :: tl =>
-      if has && (total + size <? max) then scan max tl (total + size)
-      else if total + size >? max then true
-      else if has then false else scan max tl total
-  end.
-
-Definition no_exact_fill (max : Z) (st : store) : bool :=
-  forallb (fun k => scan max (skipn k st) 0) (seq 0 (S (length st))).
-
-Definition guard (c : cfg) (st : store) : bool :=
-  match c_kind c with
-  | KRecv => no_exact_fill (c_maxsize c) st
-  | _ => true
-  end.
-
 (** * The property at full strength (every push type, no guard) *)
 Definition C32_acked_contiguous_increasing_full : Prop :=
   forall (c : cfg) (st : store) (r0 : Z) (es : list event),
